@@ -128,6 +128,21 @@ static void build_reference(State* st) {
              if (s->dyndep_text) r.flags |= 0; }
     g_ref.push_back(r);
   }
+  // phony statements are aliases, not files: what a command reads through an alias are the alias's own inputs
+  for (int pass = 0; pass < 4; pass++)
+    for (size_t i = 0; i < g_ref.size(); i++) {
+      if (g_ref[i].phony) continue;
+      std::vector<std::string> flat; size_t ndecl = 0;
+      for (size_t q = 0; q < g_ref[i].reads.size(); q++) {
+        const RefEdge* pe = NULL;
+        for (size_t z = 0; z < g_ref.size(); z++) if (g_ref[z].phony) for (size_t o = 0; o < g_ref[z].outs.size(); o++) if (g_ref[z].outs[o] == g_ref[i].reads[q]) pe = &g_ref[z];
+        if (pe) { for (size_t k = 0; k < pe->reads.size(); k++) flat.push_back(pe->reads[k]); for (size_t k = 0; k < pe->order_only.size(); k++) g_ref[i].order_only.push_back(pe->order_only[k]); }
+        else flat.push_back(g_ref[i].reads[q]);
+        if (q + 1 == g_ref[i].ndeclared) ndecl = flat.size();
+      }
+      if (g_ref[i].ndeclared == 0) ndecl = 0;
+      g_ref[i].reads = flat; g_ref[i].ndeclared = ndecl;
+    }
 }
 static const RefEdge* ref_producer(const std::string& f, int* k = NULL) {
   for (size_t i = 0; i < g_ref.size(); i++) for (size_t o = 0; o < g_ref[i].outs.size(); o++) if (g_ref[i].outs[o] == f) { if (k) *k = (int)o; return &g_ref[i]; }
